@@ -9,6 +9,7 @@ from harness.lib.core import VERIF, Ctx, lean_lock, run_driver, shrink_ops
 from harness.extract import database as x_db
 from harness.extract import database_tr as x_tr
 from harness.extract import database_ftp_tr as x_ftp
+from harness.extract import database_client_tr as x_cli
 from harness.rigs import database as rig
 
 MANIFEST = {
@@ -49,7 +50,7 @@ MANIFEST = {
     "design_ref": "5/C17",
 }
 MODULES = ["PrimaiteModel.Props.C17", "PrimaiteModel.Props.C17Run", "PrimaiteModel.Props.C17Recv", "PrimaiteModel.Props.C17Ftp",
-           "PrimaiteModel.Lemmas.DatabaseReach"]
+           "PrimaiteModel.Props.C17Client", "PrimaiteModel.Lemmas.DatabaseReach"]
 EXE = "drv_c17"
 
 
@@ -118,6 +119,10 @@ def run(ctx: Ctx):
         for fname, why in sorted(x_ftp.FAILED.items()):
             ctx.oblige(f"translate-ftp:{fname}", "extractor", False, why)
         ctx.oblige("translate-ftp:all-22-methods", "extractor", not x_ftp.FAILED, "; ".join(sorted(x_ftp.FAILED)))
+        ctx.extract(x_cli.GEN_NAME, x_cli.emit)
+        for fname, why in sorted(x_cli.FAILED.items()):
+            ctx.oblige(f"translate-client:{fname}", "extractor", False, why)
+        ctx.oblige("translate-client:all-10-functions", "extractor", not x_cli.FAILED, "; ".join(sorted(x_cli.FAILED)))
         ctx.prove(MODULES, exes=[EXE], clean=False, leanchecker=ctx.thorough)
     ctx.cov["rule"] = ("case = (number of clients 1..4, session limit, passwords, durations, ransomware presence, op sequence over "
                        "connect / handle+raw+native query / disconnect / forged+foreign ids / execute / uninstall+install / "
